@@ -302,12 +302,23 @@ func (c *codegen) hasCalls(expr ast.Expr) bool {
 			fun, ok := ce.Fun.(*ast.Ident)
 			if ok {
 				_, isFunc = c.getFuncFromIdent(fun)
+				if _, isVar := c.typeInfo.Uses[fun].(*types.Var); isVar {
+					// A variable of function type, wherever it is declared.
+					isFunc = true
+				}
 			} else {
 				var sel *ast.SelectorExpr
 				sel, ok = ce.Fun.(*ast.SelectorExpr)
 				if ok {
 					name, _ := c.getFuncNameFromSelector(sel)
 					_, isFunc = c.funcs[name]
+					if c.typeInfo.Selections[sel] != nil {
+						// A method, promoted ones included, or a field of function type.
+						isFunc = true
+					} else if _, isVar := c.typeInfo.Uses[sel.Sel].(*types.Var); isVar {
+						// A variable of function type of an imported package.
+						isFunc = true
+					}
 					fun = sel.Sel
 				}
 			}
